@@ -1404,6 +1404,10 @@ func (x *execState) judgeFinal(report bool) int {
 				x.v("rpc-error-without-status:max-retries-exhausted-wraps-EOF", "rpc %d (%s) returned an error that carries no status (the stream's real status is lost): %T %v", i, r.spec.Kind, r.err, r.err)
 				continue
 			}
+			if !ok && r.err == io.EOF {
+				x.v("rpc-error-without-status:bare-io.EOF", "rpc %d (%s) returned the bare error io.EOF, which carries no status", i, r.spec.Kind)
+				continue
+			}
 			if !ok {
 				x.v("rpc-error-without-status", "rpc %d (%s) returned an error that carries no status: %T %v", i, r.spec.Kind, r.err, r.err)
 				continue
